@@ -7,14 +7,22 @@ Monitors (the property, evaluated on what the implementation did):
   step_down     a leader whose turn finds another holder / cannot read => follower after the turn, nothing written
   displacement  the holder changes only in the mover's turn, to the mover's id, and a holder X is displaced
                 only by a follower that had seen (X, same tick) unchanged more than deadLeaderMinRound times
+  one_lasting   of the servers that took a turn since the holder last changed, only the holder is leader
+                (a displaced leader may believe for as long as it is paused, never longer)
   stability     round-fair, fault-free, leader renewing every round => no other leader, no campaign, static <= 1
   takeover      holder stopped, the others round-fair and fault-free => after round thr+2 exactly one leader, for good
-Model side: coq/theories/ElectionRun.v `ecase` — per-turn observables == the model's `turn` function.
+                (thr+2 is the bound of theorem C14_takeover; both phase monitors are evaluated only from states
+                that satisfy the theorems' preconditions `stable_start` / `consistent`, checked on the observations)
+Model side: coq/theories/ElectionRun.v `ecase` — per-turn observables == the model's `turn` function
+(DB operation sequence of the turn, record, isLeader() of every server, currentLeader, cached session, panic).
+Constants read from the built code and handed to the model / monitors: deadLeaderMinRound (the model parameter thr).
 """
 import json, os
 from vlib import *
 
 KINDS = {"r": 0, "s": 1, "p": 2, "c": 3}
+NQUICK, NTHOROUGH = 1200, 24000
+CONSTS = {}   # constants printed by the executor (read from the built code)
 
 
 # ------------------------------------------------------------------ steering simulation
@@ -312,7 +320,9 @@ def parse_out(text):
         if not f:
             continue
         if f[0] == "P":
-            thr = int(f[2])
+            CONSTS[f[1]] = int(f[2])
+            if f[1] == "deadLeaderMinRound":
+                thr = int(f[2])
         elif f[0] == "CASE":
             name, cur = f[1], []
         elif f[0] == "O":
@@ -358,8 +368,15 @@ def monitors(c, obs, thr):
     rec = tuple(c["init"]) if c["init"] else (0, 0)
     srv = [dict(role="F", cur=None) for _ in ids]
     states = []   # state after each turn: (rec, [(role, cur)])
+    last_turn = [-1] * len(ids)     # index of the last turn of each server
+    holder_changed = -1             # index of the turn in which the holder id last changed
+    hi_tick = [None] * len(ids)     # highest tick each server's ticker has shown so far
+    ticks_after = []                # hi_tick after each turn
     for j, ((i, tick, fs), o) in enumerate(zip(c["turns"], obs)):
         pre, pre_rec, me = dict(srv[i]), rec, ids[i]
+        last_turn[i] = j
+        hi_tick[i] = tick if hi_tick[i] is None else max(hi_tick[i], tick)
+        ticks_after.append(list(hi_tick))
         fl = parse_faults(fs)
         if fl:
             st["fault_turns"] += 1
@@ -373,6 +390,13 @@ def monitors(c, obs, thr):
         rec = o["rec"]
         if o["leaders"].count("1") > 1:
             st["two_leaders"] += 1
+        if rec[0] != pre_rec[0]:
+            holder_changed = j
+        # no two lasting leaders
+        for x in range(len(ids)):
+            if o["leaders"][x] == "1" and last_turn[x] >= holder_changed and last_turn[x] >= 0 and ids[x] != rec[0]:
+                fails.append(("one_lasting", j, "server %d (id %d) still leads after its own turn %d although the holder is %d since turn %d"
+                              % (x, ids[x], last_turn[x], rec[0], holder_changed)))
         # holder-only
         if o["role"] == "L":
             st["leader_turns"] += 1
@@ -398,11 +422,45 @@ def monitors(c, obs, thr):
                         fails.append(("displacement", j, "holder %d displaced by server %d whose view before the turn was %s (threshold %d)" % (pre_rec[0], i, cu, thr)))
         states.append((rec, [dict(s) for s in srv]))
     # phase monitors
+    def consistent_at(t):
+        """the observable part of predicate `consistent` (ElectionSpec.v) after t turns"""
+        if t == 0:
+            return True
+        rc, sv = states[t - 1]
+        hi = ticks_after[t - 1]
+        for g in range(len(ids)):
+            if rc[0] == ids[g] and (hi[g] is None or rc[1] > hi[g]):
+                return False
+        for x in range(len(ids)):
+            cu = sv[x]["cur"]
+            if not cu:
+                continue
+            if cu[0] == rc[0] and cu[1] > rc[1]:
+                return False
+            for g in range(len(ids)):
+                if cu[0] == ids[g] and (hi[g] is None or cu[1] > hi[g]):
+                    return False
+        return True
+
     for ph in c["phases"]:
         A, R, s0 = ph["active"], ph["rounds"], ph["start"]
         m = len(A)
         if m == 0 or R == 0:
             continue
+        if not consistent_at(s0) or thr < 1:
+            st["phases_skipped_precondition"] = st.get("phases_skipped_precondition", 0) + 1
+            continue
+        # inside a fair phase every active ticker advances by exactly one per turn, from its highest value so far
+        ok_ticks = True
+        seen = dict((x, ticks_after[s0 - 1][x] if s0 > 0 else None) for x in A)
+        for (i2, t2, f2) in c["turns"][s0: s0 + R * m]:
+            if f2 != "-" or (seen[i2] is not None and t2 != seen[i2] + 1):
+                ok_ticks = False
+            seen[i2] = t2
+        if not ok_ticks:
+            st["phases_skipped_precondition"] = st.get("phases_skipped_precondition", 0) + 1
+            continue
+        st["fair_phases"] = st.get("fair_phases", 0) + 1
 
         def state_at(k):   # after k complete rounds of the phase
             t = s0 + k * m
@@ -545,7 +603,7 @@ def run(ck):
                       "r1/s/p/r2 in modes cancelled=applied-but-reported-failed and expired=not-applied, genuinely cancelled contexts), init-dead "
                       "(record names a holder that never moves), resume, nonmono (ticks going back: the 'unknown state' panic). A case is one schedule; "
                       "non-trivial if some server became leader; distinct by md5 of the schedule.")
-    proofs_ok = ck.proofs(["theories/ElectionRun.vo"])
+    proofs_ok = ck.proofs(["theories/ElectionRun.vo", "theories/ElectionSpec.vo", "proofs/ElectionLiveProofs.vo", "proofs/ElectionDBProofs.vo"])
     binp = ck.go_test_bin("", ["root/zz_verif_election_test.go"])
     if binp is None:
         return
@@ -557,13 +615,16 @@ def run(ck):
         ck.violation("election executor failed to run", {"kind": "executor", "log_tail": (log or "")[-3000:]}, found_input=False)
         return
     ck.cov["deadLeaderMinRound_read_from_code"] = thr
+    ck.cov["constants_read_from_code"] = dict(CONSTS)
+    if CONSTS.get("DBKVUpdated") is not None and len({CONSTS.get("DBKVUpdated"), CONSTS.get("DBKVFinalized"), CONSTS.get("DBKVRejected")}) != 3:
+        ck.violation("the DB's KV result codes are no longer pairwise distinct: %s" % CONSTS, {"kind": "constants", "constants": dict(CONSTS)}, found_input=False)
     if ck.replay:
         rp = json.load(open(ck.replay))
         cases = [rp["case"]] if "case" in rp else []
         for c in cases:
             c.setdefault("phases", [])
     else:
-        n = 200 if ck.tier == "quick" else 6000
+        n = NQUICK if ck.tier == "quick" else NTHOROUGH
         cases = load_corpus() + [gen_case(rng, thr, k, "g%d" % k) for k in range(n)]
     # ---------------- run the implementation (re-run cases hit by infrastructure errors)
     obs = {}
@@ -625,6 +686,26 @@ def run(ck):
         reported += 1
     ck.cov["monitor_stats"] = stats
     ck.cov["profiles"] = prof
+    # distribution of what was executed (so that a constant branch is visible)
+    dist = {"servers": {}, "turns_per_schedule": {}, "ops_of_a_turn": {}, "fault_specs": {}, "role_after_turn": {}, "leaders_at_once": {},
+            "static_round_seen": {}, "initial_record": {}}
+
+    def bump(d, k):
+        d[k] = d.get(k, 0) + 1
+    for c in cases:
+        bump(dist["servers"], str(len(c["ids"])))
+        bump(dist["turns_per_schedule"], "%d-%d" % (len(c["turns"]) // 10 * 10, len(c["turns"]) // 10 * 10 + 9))
+        bump(dist["initial_record"], "dead-holder" if c["init"] else "none")
+        for (i, t, fs), o in zip(c["turns"], obs[c["name"]]):
+            bump(dist["ops_of_a_turn"], o["ops"])
+            if fs != "-":
+                bump(dist["fault_specs"], fs if fs == "REAL" else ",".join(sorted(fs.split(","))))
+            bump(dist["role_after_turn"], o["role"])
+            bump(dist["leaders_at_once"], str(o["leaders"].count("1")))
+            if o["cur"]:
+                bump(dist["static_round_seen"], str(min(o["cur"][2], thr + 3)) + ("+" if o["cur"][2] >= thr + 3 else ""))
+    dist["fault_specs"] = dict(sorted(dist["fault_specs"].items(), key=lambda kv: -kv[1])[:40])
+    ck.cov["schedule_distribution"] = dist
     ck.cov["exhaustive"] = False
     ck.cov["turns_executed"] = sum(len(c["turns"]) for c in cases)
     for c in cases[:400]:
